@@ -8,9 +8,9 @@ static void in_index8(u64* idx, const u64* oshape, u64 n, u64 hi){ for (u64 i = 
 
 /* pad(a, widths, value): widths = [before_0..before_{D-1}, after_0..after_{D-1}], each 0..MAXW; == np.pad(a, [(before_k, after_k)...], constant_values=value) */
 void h_pad(void){
-  u64 shape[3] = {1,1,1}, w[6], idx[4], os[4] = {0}, od = 0, ex[4] = {0}, src[3] = {0,0,0}; u32 data[CELLS], out = 0;
+  u64 shape[4] = {1,1,1,1}, w[8], idx[4], os[4] = {0}, od = 0, ex[4] = {0}, src[4] = {0,0,0,0}; u32 data[CELLS], out = 0;
   in_shape(shape, DIM); in_data(data, NCELL);
-  for (int i = 0; i < 6; i++) w[i] = in_u64(0, MAXW);
+  for (int i = 0; i < 8; i++) w[i] = in_u64(0, MAXW);
   u32 value = in_any32();
   for (u64 k = 0; k < DIM; k++) ex[k] = shape[k] + w[k] + w[DIM + k];
   in_index(idx, ex, DIM, MAXE + 2*MAXW - 1);
@@ -27,7 +27,7 @@ void h_pad(void){
 
 /* np.lib.stride_tricks.sliding_window_view(a, window, axis): scalar window 1..n, axis in [-DIM, DIM) */
 void h_sliding_axis(void){
-  u64 shape[3] = {1,1,1}, idx[4], os[8] = {0}, od = 0, ex[4] = {0}, src[3] = {0,0,0}; u32 data[CELLS], out = 0;
+  u64 shape[4] = {1,1,1,1}, idx[4], os[8] = {0}, od = 0, ex[4] = {0}, src[4] = {0,0,0,0}; u32 data[CELLS], out = 0;
   in_shape(shape, DIM); in_data(data, NCELL);
   i32 ax = in_i32(-DIM, DIM - 1); u64 an = norm_axis(ax, DIM);
   u64 win = in_u64(1, MAXE); ASSUME(win <= shape[an]);
@@ -45,7 +45,7 @@ void h_sliding_axis(void){
 }
 /* sliding_window_view(a, window_shape) with axis=None: one window extent per axis */
 void h_sliding_all(void){
-  u64 shape[3] = {1,1,1}, win[3] = {1,1,1}, idx[6], os[8] = {0}, od = 0, ex[6] = {0}, src[3] = {0,0,0}; u32 data[CELLS], out = 0;
+  u64 shape[4] = {1,1,1,1}, win[4] = {1,1,1,1}, idx[6], os[8] = {0}, od = 0, ex[6] = {0}, src[4] = {0,0,0,0}; u32 data[CELLS], out = 0;
   in_shape(shape, DIM); in_data(data, NCELL);
   for (u64 k = 0; k < DIM; k++){ win[k] = in_u64(1, MAXE); ASSUME(win[k] <= shape[k]); }
   for (u64 k = 0; k < DIM; k++){ ex[k] = shape[k] - (win[k] - 1); ex[DIM + k] = win[k]; }
@@ -62,7 +62,7 @@ void h_sliding_all(void){
 
 /* np.tril / np.triu(a, k): k in [-MAXE, MAXE]; a 1-d input of length N gives an (N,N) result whose rows are a */
 static void tri_check(int upper){
-  u64 shape[3] = {1,1,1}, idx[4], os[4] = {0}, od = 0, ex[4] = {0}, src[3] = {0,0,0}; u32 data[CELLS], out = 0;
+  u64 shape[4] = {1,1,1,1}, idx[4], os[4] = {0}, od = 0, ex[4] = {0}, src[4] = {0,0,0,0}; u32 data[CELLS], out = 0;
   in_shape(shape, DIM); in_data(data, NCELL);
   i32 k = in_i32(-MAXE, MAXE);
   u64 rd = DIM == 1 ? 2 : DIM;
@@ -85,7 +85,7 @@ void h_triu(void){ tri_check(1); }
 /* np.diagonal(a, offset, axis1, axis2): DIM >= 2, axes in [-DIM, DIM) and distinct, offsets whose diagonal is non-empty */
 #if DIM >= 2
 static void diag_check(int dflt){
-  u64 shape[3] = {1,1,1}, idx[4], os[4] = {0}, od = 0, ex[4] = {0}, src[3] = {0,0,0}; u32 data[CELLS], out = 0;
+  u64 shape[4] = {1,1,1,1}, idx[4], os[4] = {0}, od = 0, ex[4] = {0}, src[4] = {0,0,0,0}; u32 data[CELLS], out = 0;
   in_shape(shape, DIM); in_data(data, NCELL);
   i32 off = dflt ? 0 : in_i32(-(MAXE - 1), MAXE - 1), a1 = dflt ? 0 : in_i32(-DIM, DIM - 1), a2 = dflt ? 1 : in_i32(-DIM, DIM - 1);
   u64 n1 = norm_axis(a1, DIM), n2 = norm_axis(a2, DIM);
